@@ -8,7 +8,7 @@ declare -A N=( [C01]="C01 C09 C10" [C02]="C02 C16 C01" [C03]="C03 C11 C12 C13" [
 export HV_DEV_NO_PROOF=1
 pat=${1:-[ABCD]}
 out=${2:-/verif/seeded/_matrix_final.jsonl}; : > $out
-for d in /verif/seeded/_incoming/*/$pat; do
+for d in /verif/seeded/C??/$pat; do
   p=$(basename $(dirname $d)); x=$(basename $d)
   git -C /repo checkout -q -- . ; git -C /repo apply $d/patch.diff || { echo "{\"m\":\"$p/$x\",\"applies\":false}" >> $out; continue; }
   (cd /verif/tools && python3 -c "import hvlib as H; H.build_harness(False)" >/dev/null 2>&1)
